@@ -93,6 +93,7 @@ inductive CmpOp | eq | ne | lt | le | gt | ge | is | isNot | inn | notIn
 deriving Repr, DecidableEq
 inductive Builtin
   | abs | len | int | str | tuple | range | enumerate | npOnes | isinstance | set
+  | sorted | sortedDesc | join | items
 deriving Repr, DecidableEq
 inductive MutOp | append | add | remove
 deriving Repr, DecidableEq
@@ -297,6 +298,7 @@ def binopVal (op : BinOp) (a b : Val) : R Val :=
   match op, a, b with
   | .add, .str x, .str y => pure (.str (x ++ y))
   | .add, .tuple x, .tuple y => pure (.tuple (x ++ y))
+  | .mul, .tuple x, .int n => pure (.tuple ((List.replicate n.toNat x).flatten))        -- `[0] * 52`
   | _, _, _ =>
     match asInt? a, asInt? b with
     | some x, some y =>
@@ -497,6 +499,23 @@ def indexF (r : Rec) (P : Program) (x iv : Val) : R Val :=
   | .obj c _ => do let (v, _) ← callMethod r P c K.getitem__ [x, iv] (.exc K.TypeError); pure v
   | _ => throw (.exc K.TypeError)
 
+/-- insert `x` into an ascending list (`<` decided by `compareF`, i.e. integers or the class's `__lt__`) -/
+def insertSortedF (r : Rec) (P : Program) (x : Val) : List Val → R (List Val)
+  | [] => pure [x]
+  | y :: ys => do
+    if (← compareF r P .lt x y) then pure (x :: y :: ys)
+    else do pure (y :: (← insertSortedF r P x ys))
+
+/-- `sorted(xs)` (stable insertion sort; the core only sorts distinct cards) -/
+def sortF (r : Rec) (P : Program) : List Val → R (List Val)
+  | [] => pure []
+  | x :: xs => do insertSortedF r P x (← sortF r P xs)
+
+def strsOf : List Val → Option (List (List Char))
+  | [] => some []
+  | .str s :: r => (strsOf r).map (s :: ·)
+  | _ => none
+
 def builtinF (r : Rec) (P : Program) (b : Builtin) (vs : List Val) : R Val :=
   match b, vs with
   | .abs, [v] => match asInt? v with
@@ -531,6 +550,16 @@ def builtinF (r : Rec) (P : Program) (b : Builtin) (vs : List Val) : R Val :=
   | .npOnes, [v] => match asInt? v with
     | some n => pure (.tuple (List.replicate n.toNat (.int 1)))
     | none => throw (.exc K.TypeError)
+  | .sorted, [v] => match iterItems P v with
+    | some xs => do pure (.tuple (← sortF r P xs))
+    | none => throw (.exc K.TypeError)
+  | .sortedDesc, [v] => match iterItems P v with
+    | some xs => do pure (.tuple (← sortF r P xs).reverse)
+    | none => throw (.exc K.TypeError)
+  | .join, [.str sep, v] => match (iterItems P v).bind strsOf with
+    | some ss => pure (.str (List.intercalate sep ss))
+    | none => throw (.exc K.TypeError)
+  | .items, [.dict kvs] => pure (.tuple (kvs.map fun (k, v) => .tuple [k, v]))
   | .isinstance, [v, .cls c] =>
     match classOf? v with
     | some c' => pure (.bool (P.isSubclass classDepth c' c))
@@ -781,8 +810,10 @@ def exec (P : Program) (fuel : Nat) (env : Env) (ss : List Stmt) : R (Env × Flo
 def callFn (P : Program) (fuel : Nat) (fd : FuncDef) (args : List Val) : R (Val × Val) := (mkRec P fuel).call fd args
 def construct (P : Program) (fuel : Nat) (c : Id) (args : List Val) : R Val := constructF (mkRec P fuel) P c args
 
-/-- the fuel every top-level call is given (far above what any function of the core needs) -/
-abbrev topFuel : Nat := 100000
+/-- the fuel every top-level call is given: far above what any function of the core needs (a level is spent per nesting
+level and per `while` turn, none per statement or per `for` element), and by `mkRec_mono` (Lemmas/MiniPyFuel.lean) any
+larger value gives the same outcomes -/
+abbrev topFuel : Nat := 1000
 
 /-- run a module-level function -/
 def Program.runFn (P : Program) (fn : Id) (args : List Val) : R Val :=
